@@ -75,6 +75,12 @@ THEOREMS = [
     "IrVerif.Clone.C13_model_clone_succeeds",
     "IrVerif.Clone.C13_model_clone_raises_iff",
     "IrVerif.Clone.C13_spec_unbound_D342",
+    "IrVerif.Clone.C13_functionalize_any",
+    "IrVerif.Clone.C13_frame_ext3",
+    "IrVerif.Clone.C13_frame_clone_edited_ext3",
+    "IrVerif.Clone.C13_functionalize_ext3",
+    "IrVerif.Clone.C13_frame_orig_edited_ext3",
+    "IrVerif.Clone.C13_frame_orig_edited_model_ext3",
 ]
 ASSUMPTIONS = [
     "hand-written model IrVerif.Clone of _cloner.py / the clone entry points / the constructors they call; tied to the "
@@ -157,6 +163,10 @@ NONLOCAL_SPEC_P = float(__import__("os").environ.get("C13_NONLOCAL_SPEC_P", "0.2
 # probability that a generated graph with device configurations gets a sharding spec on the output of a LATER node
 # (finding D342, reported and not applied: the model is what the code is, `C13_spec_unbound_D342`; the oracle counts the
 # consequences as `observation=D342:*`, never as a failure); the same switch lets shuffled graphs carry non-local specs
+# share of the generated edits drawn from the third alphabet (Edit3)
+EDIT3_P = float(__import__("os").environ.get("C13_EDIT3_P", "0.2") or 0)
+EDIT3_KINDS = {"setInputsSlice", "setOutputsSlice", "popInit", "clearInits", "updateInits", "extendNodes", "removeSafe",
+               "rauwMulti", "renameValues", "replaceNode"}
 LATER_SPEC_P = float(__import__("os").environ.get("C13_LATER_SPEC_P", "0.06") or 0)
 
 
@@ -238,6 +248,9 @@ class Built:
             v.meta.invalidate(k)
 
     def new_value(self, s):
+        if s["name"] in self.values:
+            # the same value listed twice (an initializer that is also a graph input): ONE object
+            return self.values[s["name"]]
         v = ir.Value(name=s["name"])
         self.fill_value(v, s)
         self.values[s["name"]] = v
@@ -1209,7 +1222,35 @@ def apply_edit(heap: Heap, b: Built, e):
         elif k == "registerInit":
             O(e["g"]).register_initializer(O(e["v"]))
         elif k == "sort":
+            # the graphs nested in it (re-linked too): `Edit3.sortDeep` names them among its arguments
+            e["nest"] = [heap.ids[id(x)] for x in walk(O(e["g"]))[0][1:] if id(x) in heap.ids]
             O(e["g"]).sort()
+        elif k == "setInputsSlice":
+            O(e["g"]).inputs[e["a"] : e["b"]] = [O(v) for v in e["vs"]]
+        elif k == "setOutputsSlice":
+            O(e["g"]).outputs[e["a"] : e["b"]] = [O(v) for v in e["vs"]]
+        elif k == "popInit":
+            O(e["g"]).initializers.pop(e["key"])
+        elif k == "clearInits":
+            O(e["g"]).initializers.clear()
+        elif k == "updateInits":
+            O(e["g"]).initializers.update([(key, O(v)) for key, v in e["items"]])
+        elif k == "extendNodes":
+            O(e["g"]).extend([O(n) for n in e["ns"]])
+        elif k == "removeSafe":
+            O(e["g"]).remove([O(n) for n in e["ns"]], safe=True)
+        elif k == "rauwMulti":
+            ir.convenience.replace_all_uses_with([O(v) for v, _ in e["pairs"]], [O(r) for _, r in e["pairs"]],
+                                                 replace_graph_outputs=e["outs"])  # fmt: skip
+        elif k == "renameValues":
+            ir.convenience.rename_values([O(v) for v, _ in e["pairs"]], [nm for _, nm in e["pairs"]])
+        elif k == "replaceNode":
+            old = O(e["n"])
+            new = ir.Node("", e["opname"], [None if x is None else O(x) for x in e["inputs"]], name=e["name"],
+                          num_outputs=len(e["outs"]))  # fmt: skip
+            for v, nm in zip(new.outputs, e["outs"]):
+                v.name = nm
+            ir.convenience.replace_nodes_and_values(O(e["g"]), old, [old], [new], list(old.outputs), list(new.outputs))
         elif k == "insertBefore":
             O(e["g"]).insert_before(O(e["anchor"]), O(e["n"]))
         elif k == "insertAfter":
@@ -1504,6 +1545,12 @@ def gen_spec_nonlocal_spec(rng):
     return spec
 
 
+def random_sub(rng):
+    import random
+
+    return random.Random(rng.randrange(1 << 30))
+
+
 def gen_spec_later_spec(rng):
     """finding D342.  g1(x): a = Relu(x) -> va; b = Neg(va) -> vb with a sharding spec on vc; c = Abs(va) -> vc: the
     spec targets the output of a LATER node of a closed, def-before-use sorted graph.  Today: allow=True keeps the spec
@@ -1536,6 +1583,12 @@ def gen_spec(rng, size=4):
         return gen_spec_nonlocal_spec(rng)
     if LATER_SPEC_P and rng.random() < 0.03:
         return gen_spec_later_spec(rng)
+    if rng.random() < 0.05:
+        # a dedicated stream for C13_functionalize_any: any model, functionalize(pipeline)
+        sub = random_sub(rng)
+        spec = gen_spec(sub, size)
+        spec["target"] = {"kind": "functionalize", "stages": gen_stages(rng)}
+        return spec
     if rng.random() < 0.1:
         return gen_spec_failing_after_nested(rng)
     sg = SpecGen(rng, size)
@@ -1612,9 +1665,31 @@ def gen_spec(rng, size=4):
         spec["target"] = {"kind": "view", "name": "view0"}
     else:
         spec["target"] = {"kind": "functionalize" if rng.random() < 0.5 else "model"}
+    if spec["target"]["kind"] == "functionalize" and rng.random() < 0.6:
+        spec["target"]["stages"] = gen_stages(rng)
     if rng.random() < 0.15:
         spec["target"]["deep"] = True
     return spec
+
+
+def gen_stages(rng):
+    """a pipeline for `functionalize`: Sequential / PassManager of in-place stages, functional 'stamp' stages that
+    return a NEW ir.Model around the graph they were handed, destructive stages (edit, then return a new model).
+    Mostly: a functional first stage followed by in-place stages — the pipeline then DECLARES itself functional
+    (Sequential derives changes_input from its first pass only)."""
+    r = rng.random()
+    if r < 0.55:
+        kinds = ["rewrap"] + ["inplace"] * rng.randrange(1, 3)
+    elif r < 0.7:
+        kinds = ["inplace"] * rng.randrange(1, 3)
+    elif r < 0.8:
+        kinds = ["inplace", "rewrap"] + (["inplace"] if rng.random() < 0.5 else [])
+    elif r < 0.9:
+        kinds = ["destructive"] + ["inplace"] * rng.randrange(0, 2)
+    else:
+        kinds = ["rewrap", "rewrap", "inplace"]
+    manager = rng.random() < 0.4
+    return {"kinds": kinds, "manager": manager, "steps": rng.choice([1, 2, 2]) if manager else 1}
 
 
 def gen_edits(rng, heap: Heap, b: Built, side_root, n_edits):
@@ -1669,9 +1744,23 @@ def gen_edits(rng, heap: Heap, b: Built, side_root, n_edits):
             kinds2 += ["resizeInputs", "resizeOutputs"]
         if mv and fv:
             kinds2 += ["putFunc", "delFunc"]
+        # the third alphabet (Edit3): slices of graph.inputs / outputs, initializers.pop / clear / update, extend,
+        # remove(safe=True), convenience.replace_all_uses_with with several pairs, convenience.rename_values
+        kinds3 = []
+        if gv:
+            kinds3 += ["popInit", "clearInits"]
+            if vv:
+                kinds3 += ["setInputsSlice", "setOutputsSlice", "updateInits"]
+            if nv:
+                kinds3 += ["extendNodes", "removeSafe", "removeSafe", "replaceNode", "replaceNode"]
+        if vv:
+            kinds3 += ["rauwMulti", "renameValues", "renameValues"]
         if not kinds and not kinds2:
             break
-        k = rng.choice(kinds2) if kinds2 and (not kinds or rng.random() < 0.35) else rng.choice(kinds)
+        if kinds3 and EDIT3_P and rng.random() < EDIT3_P:
+            k = rng.choice(kinds3)
+        else:
+            k = rng.choice(kinds2) if kinds2 and (not kinds or rng.random() < 0.35) else rng.choice(kinds)
         e = {"e": k}
         if k == "setName":
             e.update(v=rng.choice(vv), s=rng.choice([f"renamed{fresh}", "w1", "x1", "", None]))
@@ -1770,7 +1859,94 @@ def gen_edits(rng, heap: Heap, b: Built, side_root, n_edits):
         elif k == "sort":
             plain = [g for g in gv if not any(a.type in (ir.AttributeType.GRAPH, ir.AttributeType.GRAPHS)
                                               for n in heap.obj(g) for a in n.attributes.values() if not a.is_ref())]
-            e.update(g=rng.choice(plain) if plain and rng.random() < 0.9 else rng.choice(gv))
+            e.update(g=rng.choice(plain) if plain and rng.random() < 0.5 else rng.choice(gv))
+            nested = [x for x in walk(heap.obj(e["g"]))[0][1:] if isinstance(x, ir.Graph) and len(x) > 1 and id(x) in R]
+            if nested and rng.random() < 0.6:
+                # un-sort a nested graph first (its first node is moved to the end), so that sorting the outer graph
+                # has something to re-link in the nest
+                ng = rng.choice(nested)
+                first = next(iter(ng))
+                if id(first) in R:
+                    edits.append({"e": "extendNodes", "g": R[id(ng)], "ns": [R[id(first)]]})
+        elif k in ("setInputsSlice", "setOutputsSlice"):
+            g = rng.choice(gv)
+            gr = heap.obj(g)
+            cur = list(gr.inputs if k == "setInputsSlice" else gr.outputs)
+            a = rng.randrange(0, len(cur) + 1)
+            bb = rng.randrange(a, len(cur) + 1)
+            cands = [R[id(x)] for x in list(gr.inputs) + list(gr.initializers.values()) + list(gr.outputs) if id(x) in R]
+            vs = [rng.choice(cands) if cands and rng.random() < 0.7 else rng.choice(vv) for _ in range(rng.randrange(0, 3))]
+            e.update(g=g, a=a, b=bb, vs=vs)
+        elif k == "popInit":
+            g = rng.choice(gv)
+            e.update(g=g, key=rng.choice(list(heap.obj(g).initializers.keys()) + ["missing"]))
+        elif k == "clearInits":
+            e.update(g=rng.choice(gv))
+        elif k == "updateInits":
+            g = rng.choice(gv)
+            gr = heap.obj(g)
+            cands = [R[id(x)] for x in list(gr.inputs) + list(gr.initializers.values()) if id(x) in R]
+            items = []
+            for _ in range(rng.randrange(1, 3)):
+                v = rng.choice(cands) if cands and rng.random() < 0.75 else rng.choice(vv)
+                nm = heap.obj(v).name
+                items.append([nm if (nm and rng.random() < 0.8) else rng.choice(["w1", "fresh_key", ""]), v])
+            e.update(g=g, items=items)
+        elif k in ("extendNodes", "removeSafe"):
+            g = rng.choice(gv)
+            own = [R[id(x)] for x in heap.obj(g) if id(x) in R]
+            ns = [rng.choice(own) if own and rng.random() < 0.8 else rng.choice(nv) for _ in range(rng.randrange(1, 3))]
+            e.update(g=g, ns=ns)
+        elif k == "replaceNode":
+            g = rng.choice(gv)
+            own = [R[id(x)] for x in heap.obj(g) if id(x) in R]
+            n = rng.choice(own) if own and rng.random() < 0.85 else rng.choice(nv)
+            node = heap.obj(n)
+            ins = [None if x is None else R.get(id(x)) for x in node.inputs]
+            if any(x is None and y is not None for x, y in zip(ins, node.inputs)) or rng.random() < 0.2:
+                ins = [rng.choice(vv + [None]) for _ in range(rng.randrange(0, 3))] if vv else []
+            k_out = len(node.outputs) if rng.random() < 0.85 else rng.randrange(0, 3)
+            e.update(g=g, n=n, name=f"rep{fresh}", opname="Identity", inputs=ins,
+                     outs=[f"rep{fresh}_o{j}" for j in range(k_out)])
+            fresh += 1
+        elif k == "rauwMulti":
+            outs_v = [R[id(x)] for g in gv for x in heap.obj(g).outputs if id(x) in R]
+            pairs = [[rng.choice(outs_v) if outs_v and rng.random() < 0.5 else rng.choice(vv), rng.choice(vv)]
+                     for _ in range(rng.randrange(1, 3))]
+            if rng.random() < 0.5:
+                # a chain: the second pair replaces the replacement of the first (whether it is accepted depends on
+                # the ownership effect of the first pair, which the call must simulate before applying anything)
+                pairs = [pairs[0], [pairs[0][1], rng.choice(vv)]]
+            owned_by = {}
+            for g in gv:
+                gr = heap.obj(g)
+                for x in list(gr.inputs) + list(gr.outputs) + list(gr.initializers.values()):
+                    if id(x) in R:
+                        owned_by.setdefault(R[id(x)], g)
+            outs_flag = rng.random() < 0.75
+            if len(gv) > 1 and rng.random() < 0.4:
+                # an ownership chain: `a` is an output of G, `b` a free value, `c` is owned by ANOTHER graph.  The first
+                # pair makes `b` an output of G, so the second pair must be refused - before anything is applied
+                g = rng.choice(gv)
+                a_c = [R[id(x)] for x in heap.obj(g).outputs if id(x) in R]
+                b_c = [v for v in vv if v not in owned_by]
+                c_c = [v for v, og in owned_by.items() if og != g]
+                if a_c and b_c and c_c:
+                    bb = rng.choice(b_c)
+                    pairs = [[rng.choice(a_c), bb], [bb, rng.choice(c_c)]]
+                    outs_flag = True
+            e.update(pairs=pairs, outs=outs_flag)
+        elif k == "renameValues":
+            pairs = []
+            for _ in range(rng.randrange(1, 3)):
+                pairs.append([rng.choice(vv), rng.choice([f"rn{fresh}", "w1", "x1", ""])])
+                fresh += 1
+            if len(pairs) == 2 and rng.random() < 0.3:
+                # a swap of two names
+                n0, n1 = heap.obj(pairs[0][0]).name, heap.obj(pairs[1][0]).name
+                if n0 and n1:
+                    pairs = [[pairs[0][0], n1], [pairs[1][0], n0]]
+            e.update(pairs=pairs)
         elif k in ("insertBefore", "insertAfter"):
             g = rng.choice(gv)
             own = [R[id(x)] for x in heap.obj(g) if id(x) in R]
@@ -1948,6 +2124,14 @@ def real_case(spec, histories_seed, n_hist, n_edits, out, fixed_plans=None):
                 st["a_before"] = [snapshot(r, tensor_names=False, attr_state=True) for r in st["others"]]
             st["outcomes"] = [apply_edit(heap2, b2, e) for e in edits]
 
+        if t["kind"] == "functionalize" and side == "clone" and t.get("stages"):
+            # C13_functionalize_any: functionalize(Sequential(...) / PassManager(...)) of stages that edit the model they
+            # are handed and / or return a NEW ir.Model built around its graph; the edit history is split over the
+            # editing stages.  Oracle: deep snapshot (and serialized proto) of the input model before / after.
+            entry = run_staged_functionalize(out, spec, t, edits, b2, heap2, roots2, src2, clone_id, len(res["world1"]), tag)
+            if entry is not None:
+                res["hist"].append(dict(entry, side=side))
+            continue
         if t["kind"] == "functionalize" and side == "clone":
             # the edit history IS the wrapped pass; the original is observed before the call and after it
             st["others"] = roots2 + [src2]
@@ -2002,6 +2186,162 @@ def real_case(spec, histories_seed, n_hist, n_edits, out, fixed_plans=None):
     return res
 
 
+STAGE_FLAGS = {"inplace": (True, True), "rewrap": (False, False), "destructive": (False, True)}
+
+
+def _has_subgraphs(heap, e):
+    try:
+        return len(walk(heap.obj(e["g"]))[0]) > 1
+    except Exception:  # noqa: BLE001
+        return True
+
+
+def run_staged_functionalize(out, spec, t, edits, b2, heap2, roots2, src2, clone_id, n_world1, tag):
+    """`functionalize(P)(model)` on a fresh build, P = Sequential / PassManager of the stages of `t["stages"]`.
+    Returns the history entry for the model comparison, or None when the input model was altered (reported)."""
+    plan = t["stages"]
+    kinds, steps = list(plan["kinds"]), int(plan.get("steps", 1))
+    instances = [k for _ in range(steps) for k in kinds]
+    edits = [e for e in edits if e["e"] not in EDIT3_KINDS and not (e["e"] == "sort" and _has_subgraphs(heap2, e))]
+    carriers = [i for i, k in enumerate(instances) if k in ("inplace", "destructive")]
+    chunks: dict[int, list] = {i: [] for i in range(len(instances))}
+    for j, e in enumerate(edits):
+        if carriers:
+            chunks[carriers[min(j * len(carriers) // len(edits), len(carriers) - 1)]].append(e)
+    st: dict = {"inst": 0, "outcomes": [], "ran": []}
+    others = roots2 + [src2]
+    before = ([snapshot(r) for r in others], [serialize(r) for r in others])
+    lax_before = [snapshot(r, shared_state=False) for r in others]
+    t_before = [snapshot(r, tensor_names=True, attr_state=False) for r in others]
+    a_before = [snapshot(r, tensor_names=False, attr_state=True) for r in others]
+    label = ("PassManager" if plan.get("manager") else "Sequential") + ":" + "+".join(kinds) + f":steps={steps}"
+    case = {"spec": spec, "side": "clone", "edits": edits}
+
+    def begin(model, edits_here):
+        i = st["inst"]
+        st["inst"] += 1
+        st["ran"].append(i)
+        if "first" not in st:
+            st["first"] = model
+            if model is b2.model or model.graph is b2.model.graph:
+                # the pipeline was handed the caller's model (or a model around the caller's graph), not a clone
+                st["same"] = True
+            else:
+                cid2 = heap2.add_root(model)
+                w1 = heap2.dump()
+                assert cid2 == clone_id and len(w1) == n_world1, "non-deterministic build"
+        if not edits_here:
+            return
+        if st.get("same"):
+            # whatever an editing stage does now, it does to the caller's model: a plain in-place edit of the
+            # model it was handed (no object ids involved)
+            g = model.graph
+            g.doc_string = f"edited by stage {i}"
+            for n in g:
+                n.doc_string = f"edited by stage {i}"
+                break
+            return
+        for e in chunks.get(i, []):
+            st["outcomes"].append(apply_edit(heap2, b2, e))
+
+    def rewrap(model):
+        # a new model object around the SAME graph and functions (what a functional "stamp" pass typically does)
+        return ir.Model(model.graph, ir_version=model.ir_version, producer_name="stamped",
+                        producer_version=model.producer_version, domain=model.domain, model_version=model.model_version,
+                        doc_string=model.doc_string, functions=list(model.functions.values()),
+                        metadata_props=dict(model.metadata_props),
+                        device_configurations=model.device_configurations)  # fmt: skip
+
+    class InPlaceStage(ir.passes.InPlacePass):
+        def call(self, model):
+            begin(model, True)
+            return ir.passes.PassResult(model, True)
+
+    class StampStage(ir.passes.FunctionalPass):
+        def call(self, model):
+            begin(model, False)
+            return ir.passes.PassResult(rewrap(model), True)
+
+    class DestructiveStage(ir.passes.PassBase):
+        in_place = False
+        changes_input = True
+
+        def call(self, model):
+            begin(model, True)
+            return ir.passes.PassResult(rewrap(model), True)
+
+    passes = [{"inplace": InPlaceStage, "rewrap": StampStage, "destructive": DestructiveStage}[k]() for k in kinds]
+    pipeline = (ir.passes.PassManager(passes, steps=steps, early_stop=False) if plan.get("manager")
+                else ir.passes.Sequential(*passes))  # fmt: skip
+    out.count(f"functionalize_pipeline={label}")
+    out.count(f"pipeline_declares=in_place={pipeline.in_place}:changes_input={pipeline.changes_input}")
+    result = None
+    try:
+        result = ir.passes.functionalize(pipeline)(b2.model)
+    except ir.passes.PassError as e:
+        st["pass_error"] = repr(e)[:200]
+    world2 = heap2.dump() if not st.get("same") else None
+    final_id = None
+    if result is not None and not st.get("same"):
+        final_id = heap2.add_root(result.model)
+        world2 = heap2.dump()
+    # the oracle: the input model (and everything else that existed) is what it was
+    lax_after = [snapshot(r, shared_state=False) for r in others]
+    t_after = [snapshot(r, tensor_names=True, attr_state=False) for r in others]
+    a_after = [snapshot(r, tensor_names=False, attr_state=True) for r in others]
+    after = ([snapshot(r) for r in others], [serialize(r) for r in others])
+    bad = False
+    if after != before:
+        if lax_after == lax_before and after[1] == before[1]:
+            # only the state of objects the two copies share by design differs (tensor names D113, Attr.meta D114)
+            shared = []
+            if t_after != t_before:
+                shared.append("tensor-name")
+            if a_after != a_before:
+                shared.append("attr-meta")
+            out.fail(f"frame:shared-{'+'.join(shared) or 'state'}:clone-edited:{tag}",
+                     "editing the clone changed a tensor name / Attr.meta that the original shares", case)
+        else:
+            bad = True
+            out.fail(f"functionalize:input-changed:{label}",
+                     "functionalize(pipeline)(model) changed its input model (deep snapshot / serialized proto differ)", case)
+    if st.get("same"):
+        bad = True
+        out.fail(f"functionalize:pass-ran-on-input:{label}",
+                 "functionalize handed the caller's model (or a model around the caller's graph) to the wrapped pass", case)
+    if result is not None and not bad:
+        if result.model is b2.model:
+            bad = True
+            out.fail(f"functionalize:returned-input:{label}", "functionalize returned its input model object", case)
+        else:
+            # later edits of the returned model must not reach the input either (after the heap was dumped)
+            rg = result.model.graph
+            rg.doc_string = "edited later"
+            for v in rg.inputs:
+                v.doc_string = "edited later"
+            for n in rg:
+                n.doc_string = "edited later"
+                break
+            # (tensor names are excluded: serializing renames the tensors the two copies share, D113)
+            later = ([snapshot(r, shared_state=False) for r in others], [serialize(r) for r in others])
+            if later != (lax_after, after[1]):
+                bad = True
+                out.fail(f"functionalize:later-edit-reaches-input:{label}",
+                         "editing the model returned by functionalize(pipeline) changed the input model", case)
+    if bad or result is None:
+        if result is None and not bad:
+            out.count("functionalize_pipeline_pass_error")
+        return None
+    hdr = world2[final_id]["header"]
+    stages = []
+    for i, k in enumerate(instances):
+        ip, ci = STAGE_FLAGS[k]
+        stages.append({"kind": "inplace" if k == "inplace" else "rewrap", "inPlace": ip, "changesInput": ci, "header": hdr,
+                       "tr": [translate_edit_later(heap2, b2, e) for e in chunks.get(i, [])]})  # fmt: skip
+    return {"outcomes": st["outcomes"], "world2": world2, "tr": [translate_edit_later(heap2, b2, e) for e in edits],
+            "stages": stages, "final_id": final_id, "edits": edits}
+
+
 def do_clone_kind(b, kind, t):
     deep = bool(t.get("deep"))
     tgt = b.target()
@@ -2017,6 +2357,8 @@ def translate_edit_later(heap, b, e):
         r["t"] = None if e["t"] is None else heap.ref("tensor", b.tensors[e["t"]])
     if e["e"] == "setAttr":
         r["p"] = heap.payload(("INT", repr(int(e["val"]))))
+    if e["e"] == "sort" and e.get("nest"):
+        r["e"] = "sortDeep"  # `Edit3.sortDeep`: the graph has nested graphs
     return r
 
 
@@ -2052,6 +2394,14 @@ def map_ids(e, m):
             r[k] = m.get(x, 10**9)
         elif k == "inputs":
             r[k] = [None if y is None else m.get(y, 10**9) for y in x]
+        elif k in ("vs", "ns", "nest"):
+            r[k] = [m.get(y, 10**9) for y in x]
+        elif k == "pairs" and e["e"] == "rauwMulti":
+            r[k] = [[m.get(a, 10**9), m.get(bb, 10**9)] for a, bb in x]
+        elif k == "pairs" and e["e"] == "renameValues":
+            r[k] = [[m.get(a, 10**9), nm] for a, nm in x]
+        elif k == "items":
+            r[k] = [[key, m.get(v, 10**9)] for key, v in x]
         elif k == "dev":
             r[k] = [{"cfg": d["cfg"], "specs": [[None if v is None else m.get(v, 10**9), p] for v, p in d["specs"]]}
                     for d in x]  # fmt: skip
@@ -2164,7 +2514,14 @@ def compare_cases(ctx: Ctx, results):
         m = dict(zip(oi, om))  # impl raw id -> model raw id
         for h in r["hist"]:
             edits = [map_ids(e, m) for e in h["tr"] if e["e"] not in ORACLE_ONLY]
-            if r["spec"]["target"]["kind"] == "functionalize" and h["side"] == "clone":
+            if r["spec"]["target"]["kind"] == "functionalize" and h["side"] == "clone" and h.get("stages"):
+                # `IrVerif.Clone.functionalizeAny` (C13_functionalize_any): every stage instance with its edits
+                reqs2.append({"m": "clone.functionalizeAny", "world": r["world0"], "mo": r["step"]["mo"],
+                              "stages": [{"kind": sg["kind"], "inPlace": sg["inPlace"], "changesInput": sg["changesInput"],
+                                          "header": sg["header"],
+                                          "edits": [map_ids(e, m) for e in sg["tr"] if e["e"] not in ORACLE_ONLY]}
+                                         for sg in h["stages"]]})  # fmt: skip
+            elif r["spec"]["target"]["kind"] == "functionalize" and h["side"] == "clone":
                 # `IrVerif.Clone.functionalize`: the pass is the edit history
                 reqs2.append({"m": "clone.functionalize", "world": r["world0"], "mo": r["step"]["mo"], "edits": edits})
             else:
@@ -2283,6 +2640,14 @@ def compare_cases(ctx: Ctx, results):
             ctx.disagree(f"edit outcome #{k} {h['edits'][k]['e']}: model {mo[k]}, implementation {h['outcomes'][k]}",
                          case, o["outcomes"][k + 1], h["outcomes"][k])  # fmt: skip
             continue
+        if h.get("stages"):
+            # the model returned by the pipeline is a root too
+            ctx.count("via_model_functionalizeAny")
+            if o["outcome"]["r"] != "ok":
+                ctx.disagree(f"functionalize(pipeline): model {o['outcome']}, implementation returned", case, o["outcome"], "ok")
+                continue
+            mroots = mroots + [o["outcome"]["id"]]
+            iroots = iroots + [h["final_id"]]
         cm, _ = canon(o["world"], mroots)
         ci, _ = canon(h["world2"], iroots)
         if cm != ci:
